@@ -254,6 +254,12 @@ def run(ctx):
 
     # read deadline / cancellation: outside the model; only a delivered message that was never sent is a violation
     for d in extra.get("read_deadline_behaviour") or []:
+        if d.get("lost_a_frame_although_every_pause_was_shorter_than_the_deadline") and d.get("longest_pause_ms", 999) <= 110:
+            viol("deadline:%s:%s" % (d["scenario"], d["mode"]),
+                 "a frame that arrives in pieces, each within the read deadline (150 ms; longest pause %d ms), was not delivered (mode %s): %s"
+                 % (d.get("longest_pause_ms"), d["mode"], d.get("reads")),
+                 {"kind": "D", "scenario": d["scenario"], "v": d["mode"], "expected": ["frame1", "frame2", "EOF"], "got": d.get("reads"),
+                  "note": "every Read call has its own deadline (SetReadDeadline before each read): a deadline armed for an earlier read must not cut a later one short"})
         if d.get("delivered_something_never_sent"):
             viol("deadline:%s:%s" % (d["scenario"], d["mode"]),
                  "after a read deadline / cancellation (%s, mode %s) ReadMsg delivered data that was never sent: %s"
